@@ -11,7 +11,6 @@ import (
 	"os"
 	"sort"
 	"strings"
-	"time"
 
 	om "github.com/osmosis-labs/osmosis/osmomath"
 	core "github.com/osmosis-labs/osmosis/osmomath/zzverif/res"
@@ -211,6 +210,5 @@ func finish(c *ctx) {
 	for k, v := range c.nviol {
 		c.r.Extra["sum_failing_points_"+k] = v
 	}
-	c.r.WallS = time.Since(c.f.Start).Seconds()
-	c.r.Emit()
+	core.Finish(c.f, c.r)
 }
